@@ -857,7 +857,11 @@ def verify(registry, top, tier='quick', max_paths=4000, collect_pre=True):
             outcome = 'unsupported'
         except PyExc as e:
             # exception escaping from clause evaluation / pre-state construction
-            res.undecided.append(f'{path.cur_loc}: python exception {e.value!r} outside the function under contract')
+            try:
+                _desc = f'{path.exc_class_of(e.value).__name__}{getattr(path.obj(e.value), "fields", {}).get("args", "")!r}'
+            except Exception:
+                _desc = repr(e.value)
+            res.undecided.append(f'{path.cur_loc}: python exception {_desc} outside the function under contract')
             outcome = 'unsupported'
         except RecursionError:
             res.undecided.append('python recursion limit in the engine')
